@@ -77,8 +77,8 @@ Section Metrics.
 Variable bname : bytes.
 Variable store : ident -> lookup.
 Variable async_store : bool.
-Notation Good := (Good store async_store).
-Notation Good0 := (Good0 store async_store).
+Notation Good := (Good (srow store) async_store).
+Notation Good0 := (Good0 (srow store) async_store).
 
 Lemma sub_raw_M q c s : Inv s -> copen (conns s q) = true -> M s -> M (sub_raw q c s).
 Proof.
@@ -106,7 +106,7 @@ Qed.
 Lemma unsub_all_M l : forall q s, Inv s -> M s -> M (unsub_all q l s).
 Proof.
   induction l as [|c l IH]; intros q s I Hm; cbn; [exact Hm|].
-  apply IH; [apply (unsub_raw_inv store); exact I|apply unsub_raw_M; assumption].
+  apply IH; [apply (unsub_raw_inv (srow store)); exact I|apply unsub_raw_M; assumption].
 Qed.
 
 Lemma filter_drop (f g : nat -> bool) (p : nat) l :
@@ -144,7 +144,7 @@ Lemma deliver_M i c dt s d : Good0 s -> M s -> copen (conns s d) = true ->
   exists s', deliver i c dt (Ok s) d = Ok s' /\ Good0 s' /\ M s' /\ (forall q, q <> d -> conns s' q = conns s q).
 Proof.
   intros G Hm Ho. unfold deliver. destruct (closing (conns s d)) eqn:Ec.
-  - rewrite Ho. destruct (lostp_good0 store async_store d s G Ho) as (G' & _ & _ & Fo & _).
+  - rewrite Ho. destruct (lostp_good0 (srow store) async_store d s G Ho) as (G' & _ & _ & Fo & _).
     exists (lostp d s). split; [reflexivity|]. split; [exact G'|]. split; [|exact Fo].
     apply lostp_M; [apply G|exact Ho|exact Hm].
   - exists (wr d (FPub i c dt) s). split; [reflexivity|]. split; [apply wr_good0; exact G|]. split; [apply wr_M; exact Hm|].
